@@ -474,7 +474,7 @@ def run(ctx):
                        "addresses at and around each subnet boundary, names through a scripted resolver whose answers "
                        "change after admission, malformed strings, ports, mutation fuzz; a case is non-trivial if "
                        "hash-distinct (counted per outcome class); plus ingest->Proxy runs with a dial recorder")
-    ctx.coq_props()
+    ctx.coq_props(extra_dirs=["C07"])
 
     rng = ctx.rng
     policies = list(FIXED_POLICIES)
